@@ -269,6 +269,7 @@ def run_unit(tpl_path, width, rlimit=30):
     r["sources"] = g.sources
     r["rules"] = g.rules_log
     r["ctx"] = g.ctx
+    r["pins"] = g.pins
     r["clauses_not_decided"] = g.undecided
     r["trust_scan"] = scan_trust(g)
     r["dropped"] = sorted(g.dropped)
